@@ -2,6 +2,7 @@ package object
 
 import (
 	"fmt"
+	"math"
 	"math/bits"
 	"runtime"
 	"runtime/debug"
@@ -30,7 +31,21 @@ func SizeOk(n int) (bool, int64) {
 		return true, 0
 	}
 	free := FreeMemory()
-	return ((free >= 0) && ((int64(n) * ObjectSize) < free)), free
+	// n < free/ObjectSize rather than n*ObjectSize < free: the product overflows for huge (or negative,
+	// i.e. already overflowed) requests and would let them through.
+	return ((free >= 0) && n >= 0 && (int64(n) < free/ObjectSize)), free
+}
+
+// Product of 2 sizes (element count x repetitions) for MustBeOk/MakeObjectSlice: saturates to the
+// largest int instead of wrapping around, so an overflowing request is refused and not mistaken for a small one.
+func MulSize(a, b int) int {
+	if a <= 0 || b <= 0 {
+		return 0
+	}
+	if a > math.MaxInt/b {
+		return math.MaxInt
+	}
+	return a * b
 }
 
 func MustBeOk(n int) {
